@@ -182,6 +182,11 @@ def _bodies() -> list[list[Any]]:
         [M.Incr("c1")],
         [M.Text(" "), M.Capture("cap1", [M.Text("q")]), M.Text("\n")],
         [M.Text(" "), M.LiquidTag([M.Assign("z", M.Filt(M.Lit(3)))]), M.Text(" ")],
+        # outputs that start from a blank string literal but print text
+        [M.Text(" "), M.Out(M.Filt(M.Lit(""), [M.FCall("append", [M.Var("v")])])), M.Text(" ")],
+        [M.Out(M.Filt(M.Lit(" "), [M.FCall("append", [M.Var("v")]), M.FCall("upcase")]))],
+        [M.Text("\n"), M.Out(M.Filt(M.Lit(""), [M.FCall("default", [M.Lit("dflt")])])), M.Text("\t")],
+        [M.Out(M.Filt(M.Lit(""), [M.FCall("prepend", [M.Var("v")])]), form="echo")],
         # captured text that is whitespace only (printed after the nest, compared exactly)
         [M.Capture("cap1", [M.Text(" \n ")])],
         [M.Text("\t"), M.Capture("cap1", [M.Text("  "), M.Assign("z", M.Filt(M.Lit(4))), M.Text("\u00a0\n")]), M.Text(" ")],
